@@ -9,6 +9,15 @@ ODO = [("QuartzModel.Proofs.Odometer", t) for t in ["Odo.findForward_spec", "Odo
 SCHEDFACTS = [("QuartzModel.Theorems.SchedFacts", "Sched." + t) for t in ["validate_branches", "misfire_offer_nonblocking", "step_order", "classify_spec"]]
 
 THEOREMS = {
+    "C12": [("QuartzModel.Theorems.C12", "Pool." + t) for t in [
+        "C12_facts", "C12_blocking_le_one", "C12_blocking_ignores_worker_limit", "C12_pool_le_n", "C12_pool_reaches_n",
+        "C12_pool_full_blocks", "C12_unbounded_loop_never_waits", "C12_unbounded_no_bound",
+        "C12_blocking_le_one_code", "C12_pool_le_n_code", "C12_unbounded_loop_never_waits_code"]],
+    "C10": [("QuartzModel.Theorems.C10", "Lifecycle." + t) for t in [
+        "C10_facts", "C10_start_idempotent", "C10_stop_idempotent", "C10_isStarted_latest", "C10_started_at_quiescence",
+        "C10_cancel_eq_stop", "C10_restart", "C10_restart_unguarded_fails", "C10_cancel_start_race_unrepaired",
+        "C10_wait_sound", "C10_ctx_cancelled_on_stop", "C10_isStarted_latest_code", "C10_restart_code"]] +
+           [("QuartzModel.Proofs.LifecycleLemmas", "Lifecycle.quiet_iff")],
     "C14": [("QuartzModel.Theorems.C14", "Cron." + t) for t in [
         "C14_sound", "C14_no_miss", "C14_expiry", "C14_terminates", "C14_exact_away_from_transitions", "C14_exact_is_least",
         "C14_chain_increasing", "C14_fixed_zone_is_special_case", "C14_total", "C14_reading_advances", "C14_result_reading"]] +
